@@ -73,7 +73,8 @@ inductive APin where
 
 inductive ANetKind where
   | scalar (name : AName)
-  | bit (bident bname : Str) (idx : Nat)     -- bit `idx` of the bus (`bident`, `bname`)
+  | bit (bident bname : Str) (idx : Nat) (iidx : Nat)   -- bit `idx` of the bus (`bident`, `bname`), written
+                                                        -- `(rename bident_iidx_ "bname[idx]")`
   deriving Repr, Inhabited
 
 structure ANet where
@@ -147,7 +148,7 @@ def APin.sexp : APin → SExp
 
 def ANetKind.sexp : ANetKind → SExp
   | .scalar a => a.sexp
-  | .bit bi bn i => .list [A "rename", .atom (bitIdent bi i), qtok (bitName bn i)]
+  | .bit bi bn i j => .list [A "rename", .atom (bitIdent bi j), qtok (bitName bn i)]
 
 def ANet.sexp (n : ANet) : SExp := .list [A "net", n.kind.sexp, .list (A "joined" :: n.pins.map APin.sexp)]
 
@@ -284,7 +285,7 @@ def APin.pin : APin → CPin
 /-- the cable-level (identifier, name) a net declares -/
 def ANetKind.key : ANetKind → Str × Str
   | .scalar a => (a.ident, a.name)
-  | .bit bi bn _ => (bi, bn)
+  | .bit bi bn _ _ => (bi, bn)
 
 def ANet.cname (n : ANet) : Str := n.kind.key.2
 
@@ -297,7 +298,7 @@ def firstNames (l : List Str) : List Str := l.foldl addName []
 /-- the bit nets of the bus called `nm`: (index, pins) in text order -/
 def busBits (nm : Str) (nets : List ANet) : List (Nat × List CPin) :=
   nets.filterMap fun n => match n.kind with
-    | .bit _ bn i => if bn = nm then some (i, n.pins.map APin.pin) else none
+    | .bit _ bn i _ => if bn = nm then some (i, n.pins.map APin.pin) else none
     | .scalar _ => none
 
 def minOf : List Nat → Nat
@@ -324,7 +325,7 @@ def cableDen (nets : List ANet) (nm : Str) : Option V05Cable :=
   | some n =>
     match n.kind with
     | .scalar a => some ⟨some a.name, some a.ident, false, 0, [n.pins.map APin.pin]⟩
-    | .bit bi bn _ =>
+    | .bit bi bn _ _ =>
       let bits := busBits nm nets
       let lo := minOf (bits.map (·.1))
       let hi := maxOf (bits.map (·.1))
@@ -398,13 +399,13 @@ def APin.okB (d : ADesign) (c : ACell) : APin → Bool
 
 def ANetKind.okB : ANetKind → Bool
   | .scalar a => a.okB && (sepName a.name).1.isNone && !a.name.isEmpty
-  | .bit bi bn i =>
+  | .bit bi bn i j =>
     checkEdifIdentifier bi && checkEdifIdentifier (bitIdent bi i) && (bitName bn i).all isStringChar &&
-    bracketAllowed (bitName bn i) && !bn.isEmpty
+    bracketAllowed (bitName bn i) && !bn.isEmpty && checkEdifIdentifier (bitIdent bi j)
 
 def ANetKind.isBit : ANetKind → Bool
   | .scalar _ => false
-  | .bit _ _ _ => true
+  | .bit _ _ _ _ => true
 
 /-- the nets of a cell: each one legal; two nets with the same cable name are bits of one bus (same
     identifier), two with different names have different identifiers ignoring case; no bit twice -/
